@@ -33,6 +33,20 @@ CHECKS.update(
         note="Exact rational arithmetic only; the float few-ulp clause and Decimal are outside; units with non-integer powers in their factor are compared by root units only.",
         design="4/C02",
     ),
+    C03=dict(
+        text="Each Quantity operator of the real code is run on symbolic magnitudes in two unit expressions of the same operands; the results are proved physically equal for all magnitudes "
+        "(root magnitude, dimensionality, truth value or exception class). Reflected and in-place (scalar and object-array) forms are proved equal to the plain forms; admissibility of a bare "
+        "symbolic number under + and - is proved to be exactly 'dimensionless or zero'.",
+        note="Exact rational arithmetic; unit tuples are a cover list plus seeded draws; integer powers in [-3,3]; int/float/Decimal magnitudes, NaN and float arrays outside.",
+        design="4/C03",
+    ),
+    C04=dict(
+        text="UnitsContainer/ParserHelper/Unit algebra of the real code on symbolic integer exponents: group laws, canonical form (no zero entry), == iff equal exponents, non-mutation proved for all exponents in the bound; "
+        "hash laws with real hashes after solver-driven realisation (detects stale cached hashes); dimensionality homomorphism against the independent reader; column_echelon_form with symbolic matrices "
+        "against a minor-based rank encoding; pi_theorem on solver-realised small integer matrices.",
+        note="Exponent range [-2,2] (thorough [-3,3] and half-integers), alphabet of 3 names, matrices up to 3x3: bounds. Float cancellation and Decimal exponents outside.",
+        design="4/C04",
+    ),
     C06=dict(
         text="Bounded model checking of the offset calculus: the real operators (+ - * / ** unary comparisons, reflected and in-place twins on object arrays) and the two-stage "
         "conversion run on generated offset units with symbolic scale and offset and symbolic magnitudes; unit and value of every cell of the operator x operand-kind x order x mode table "
